@@ -8,6 +8,7 @@ import (
 
 	"compiler/internal/context_v2"
 	"compiler/internal/diagnostics"
+	"compiler/internal/frontend/ast"
 	"compiler/internal/frontend/lexer"
 	"compiler/internal/frontend/parser"
 	"compiler/internal/semantics/collector"
@@ -398,3 +399,163 @@ func HarnessC11Positions0() { c11Run(0, 3) }
 func HarnessC11Positions1() { c11Run(3, 6) }
 func HarnessC11Positions2() { c11Run(6, 9) }
 func HarnessC11Positions3() { c11Run(9, 12) }
+
+// ---------------------------------------------------------------------------------------------------- C12
+// c12Name: an identifier whose first letter is a symbolic ASCII letter (its case decides visibility), followed by a
+// fixed suffix that keeps it from being a keyword.
+func c12Name(tag string) (string, bool) {
+	c := verifrt.String(tag, 1)
+	verifrt.Assume((c[0] >= 'a' && c[0] <= 'z') || (c[0] >= 'A' && c[0] <= 'Z'))
+	return c + "zq", c[0] >= 'A' && c[0] <= 'Z'
+}
+
+// HarnessC12Fields: a struct field whose first letter is symbolic, accessed from each kind of site: the real front end
+// accepts the access iff the field is upper-case (exported) or the site reaches it through the receiver inside a
+// method of its own type (or initialises it in a struct literal); a method carrying the same name as the field does
+// not open the field up.
+func HarnessC12Fields() {
+	f, exported := c12Name("field")
+	site := verifrt.Choice("site", 11)
+	var sb strings.Builder
+	sb.WriteString("type Acct struct { .Id: i32, ." + f + ": i32 };\n")
+	sb.WriteString("type Box struct { .In: Acct };\n")
+	allowed := exported
+	switch site {
+	case 0:
+		sb.WriteString("fn use(x: Acct) -> i32 { return x." + f + "; }\n")
+	case 1:
+		sb.WriteString("fn use(x: &'Acct) { x." + f + " = 5; }\n")
+	case 2:
+		sb.WriteString("fn (a: &Acct) get() -> i32 { return a." + f + "; }\n")
+		allowed = true
+	case 3:
+		sb.WriteString("fn (a: &Acct) other(o: &Acct) -> i32 { return o." + f + "; }\n")
+	case 4:
+		sb.WriteString("fn (b: &Box) peek(x: Acct) -> i32 { return x." + f + "; }\n")
+	case 5:
+		sb.WriteString("fn use(x: Acct) -> i32 { let g := fn() -> i32 { return x." + f + "; }; return g(); }\n")
+	case 6:
+		sb.WriteString("fn use(b: Box) -> i32 { return b.In." + f + "; }\n")
+	case 7:
+		sb.WriteString("fn use(x: Acct) -> i32 { let go: bool = true; let q: i32 = 0; while go { go = false; q = x." + f + "; } return q; }\n")
+	case 8:
+		sb.WriteString("fn mk() -> Acct { return { .Id = 1, ." + f + " = 2 } as Acct; }\n")
+		allowed = true
+	case 9:
+		// a method with the same name as the field exists; the access is still a field access from outside
+		sb.WriteString("fn (a: &Acct) " + f + "() -> i32 { return 1; }\n")
+		sb.WriteString("fn use(x: Acct) -> i32 { return x." + f + "; }\n")
+	case 10:
+		sb.WriteString("fn (a: &'Acct) set(v: i32) { a." + f + " = v; }\n")
+		allowed = true
+	}
+	o := Run(sb.String())
+	if allowed {
+		verifrt.Assert(o.Accepted(), "an access to an exported field, or to a private field through the receiver, is rejected: "+o.Messages())
+	} else {
+		verifrt.Assert(!o.Accepted(), "a private (lower-case) struct field is accessed from outside a method of its type and the program is accepted")
+	}
+}
+
+// RunProject runs the front end on several in-memory modules the way the pipeline does phase by phase: all modules
+// are lexed and parsed, import edges registered (AddDependency, circular imports reported), then collector, resolver
+// and type checker run over the modules in the context's topological order.  paths[i] is the import path of srcs[i];
+// the last one is the entry module.
+func RunProject(paths []string, srcs []string) *Outcome {
+	ctx := context_v2.New(&context_v2.Config{Extension: ".fer", ProjectName: "p"}, false)
+	mods := make([]*context_v2.Module, len(paths))
+	for i, p := range paths {
+		scope := table.NewSymbolTable(ctx.Universe)
+		mods[i] = &context_v2.Module{FilePath: p + ".fer", ImportPath: p, Type: context_v2.ModuleLocal, ModuleScope: scope, CurrentScope: scope,
+			Content: srcs[i], Artifacts: map[string]any{}}
+		ctx.AddModule(p, mods[i])
+		ctx.Diagnostics.AddSourceContent(p+".fer", srcs[i])
+		toks := lexer.New(p+".fer", srcs[i], ctx.Diagnostics).Tokenize(false)
+		mods[i].AST = parser.Parse(toks, p+".fer", ctx.Diagnostics)
+	}
+	for i, p := range paths {
+		if mods[i].AST == nil {
+			continue
+		}
+		for _, n := range mods[i].AST.Nodes {
+			imp, ok := n.(*ast.ImportStmt)
+			if !ok || imp == nil || imp.Path == nil {
+				break
+			}
+			target := strings.Trim(imp.Path.Value, "\"")
+			if err := ctx.AddDependency(p, target); err != nil {
+				ctx.ReportError(err.Error(), &imp.Location)
+			}
+		}
+	}
+	ctx.ComputeTopologicalOrder()
+	for _, name := range ctx.GetModuleNames() {
+		if m, ok := ctx.GetModule(name); ok && m.AST != nil {
+			collector.CollectModule(ctx, m)
+		}
+	}
+	for _, name := range ctx.GetModuleNames() {
+		if m, ok := ctx.GetModule(name); ok && m.AST != nil {
+			resolver.ResolveModule(ctx, m)
+		}
+	}
+	for _, name := range ctx.GetModuleNames() {
+		if m, ok := ctx.GetModule(name); ok && m.AST != nil {
+			typechecker.TypeCheckTopLevelSignatures(ctx, m)
+		}
+	}
+	for _, name := range ctx.GetModuleNames() {
+		if m, ok := ctx.GetModule(name); ok && m.AST != nil {
+			typechecker.CheckModule(ctx, m)
+		}
+	}
+	o := &Outcome{Ctx: ctx, Mod: mods[len(mods)-1]}
+	for _, d := range ctx.Diagnostics.Diagnostics() {
+		if d.Severity == diagnostics.Error {
+			o.Errors = append(o.Errors, d)
+		}
+	}
+	return o
+}
+
+// HarnessC12Modules: a function, constant, variable, type, or struct field of module p/lib whose first letter is
+// symbolic, named from module p/app in each syntactic position: accepted iff the name is upper-case.
+func HarnessC12Modules() {
+	n, exported := c12Name("name")
+	kind := verifrt.Choice("kind", 8)
+	lib := "type Pub struct { .V: i32 };\nfn Make() -> Pub { return { .V = 1 } as Pub; }\n"
+	use := ""
+	switch kind {
+	case 0:
+		lib += "fn " + n + "() -> i32 { return 7; }\n"
+		use = "let x: i32 = lib::" + n + "();"
+	case 1:
+		lib += "const " + n + ": i32 = 3;\n"
+		use = "let x: i32 = lib::" + n + ";"
+	case 2:
+		lib += "let " + n + ": i32 = 3;\n"
+		use = "let x: i32 = lib::" + n + ";"
+	case 3:
+		lib += "type " + n + " struct { .V: i32 };\n"
+		use = "let x: lib::" + n + " = { .V = 1 } as lib::" + n + ";"
+	case 4:
+		lib += "type " + n + " struct { .V: i32 };\n"
+		use = "let f := fn(q: lib::" + n + ") -> i32 { return q.V; };"
+	case 5:
+		lib += "fn " + n + "() -> i32 { return 7; }\n"
+		use = "let go: bool = true; while go { go = false; if lib::" + n + "() > 1 { } }"
+	case 6:
+		lib += "fn " + n + "(a: i32) -> i32 { return a; }\n"
+		use = "let x: i32 = lib::" + n + "(lib::" + n + "(1));"
+	case 7:
+		lib += "fn (p: &Pub) " + n + "() -> i32 { return p.V; }\n"
+		use = "let v := lib::Make(); let x: i32 = v." + n + "();"
+	}
+	app := "import \"p/lib\";\nfn main() {\n" + use + "\n}\n"
+	o := RunProject([]string{"p/lib", "p/app"}, []string{lib, app})
+	if exported {
+		verifrt.Assert(o.Accepted(), "an exported (upper-case) symbol of another module is rejected: "+o.Messages())
+	} else if kind != 7 {
+		verifrt.Assert(!o.Accepted(), "a private (lower-case) symbol of another module is named and the program is accepted")
+	}
+}
